@@ -283,16 +283,20 @@ def r7_method_arms(ctx):
     b = ctx.need('C07.R7', 'codegen::router::path_router', ctx.fb.body('pavexc', PX + 'codegen::router::path_router'))
     if b is None:
         return
+    from ..inline import inlined
+    b = inlined(ctx.fb, b)         # the per-handler arms may be produced by a private helper of the function
     NEXT = 'core::iter::traits::iterator::Iterator::next'
     heads = [bb for bb, t in b.calls() if callee(t) == NEXT and bb in b.reachable(b.succ(bb))]
     chs = [(min(bb for bb, _ in ch), max(bb for bb, _ in ch), [t for _, t in ch]) for ch in chains(b)]
     chs.sort()
+    # the per-handler templates are the ones emitted inside the loop over the handlers
+    chs = [c for c in chs if c[0] in b.reachable(b.succ(c[0]))]
     wk_end = cu_start = None
     for i, (lo, hi, toks) in enumerate(chs):
         flat = [(t[0], str(t[1])) for t in toks]
         if cu_start is None and ('ident', 's') in flat and ('ident', 'if') in flat:
             cu_start = lo
-        if wk_end is None and ('punct', '&') in flat and not any(k == 'ident' and v in ('self', 'request', 'ApplicationState') for k, v in flat):
+        if wk_end is None and ('punct', '&') in flat and not any(k == 'ident' and v in ('self', 'request', 'ApplicationState', 'match') for k, v in flat):
             # the `=>` chain that follows closes the well-known arm
             for lo2, hi2, toks2 in chs[i + 1:]:
                 if any(t[0] == 'punct' and str(t[1]) == '=>' for t in toks2):
